@@ -50,6 +50,26 @@ CHECKS = {
             "Seeded histories with limit 1..8, initial height 1..50, all-empty/mixed/all-non-empty chains and finite DA outages. A production step that declines is legal only while at least `limit` committed blocks still wait for DA acceptance (header or non-empty data); with an accepting DA every round must commit a block. Sampling, not proof.",
             "Only outages are injected so that accepted and acknowledged coincide.",
             "DESIGN.md §5 C08", "stepsim"),
+    "C03": ("exploration",
+            "deterministic simulation: C02's world plus a seeded adversary (other key) publishing forged/mutated/unsigned material on the simulated DA, in the polled P2P header store, and to the header-only admission pipeline; prefix-equality, no-mark, no-halt, no-panic oracles",
+            "8 kinds of adversarial headers and 4 kinds of adversarial signed data built without the proposer's private key are interleaved with genuine traffic, arbitrary delivery order and restarts on a real follower; nothing adversarial may be applied, stored in the chain, marked DA-included or admitted by the light-node pipeline (real types + go-header Verify); DA-borne material may neither halt the follower nor keep it from reaching the proposer's height. Sampling, not proof.",
+            "Light node = the library's admission pipeline on real types, not the whole LightNode; P2P stores are doubles. A follower halted by junk P2P material is not judged.",
+            "DESIGN.md §5 C03", "stepsim"),
+    "C09": ("exploration",
+            "deterministic simulation: real RetrieveLoop + RetrieveWithHelpers against a simulated DA with seeded contents (genuine + junk blobs, >100 per height) and per-height fetch outcome scripts; oracle over the DA call log and emitted events",
+            "Seeded DA contents over 8 heights from start height 0..20 with genuine blobs of a real proposer chain mixed with 6 kinds of junk, per-height outcome sequences (not-found claim, future, listing error, chunk error), three empty-height styles and seeded signals. The request log must examine heights in order from the start, leave a height only after success/confirmed-empty, retry after failure; every genuine item must be handed to sync with the height it was found at, nothing else; no panic, no stall, no busy loop. Sampling, not proof.",
+            "Junk excludes third-party self-consistent forgeries (C03). A DA never claims 'not found' for a height holding blobs.",
+            "DESIGN.md §5 C09", "stepsim"),
+    "C15": ("exploration",
+            "deterministic simulation: three real KV executors over simulated disks driven with seeded interleavings of execute/finalize/inject/init/reopen; differential (metamorphic) root comparison against a reference instance",
+            "Proposer-like and follower-like instances get finalize calls at different times, mempool traffic, repeated InitChain and reopen; a reference instance only executes. Per block all three state roots must be equal; malformed blocks must fail and change nothing; re-execution and repeated initialization must be idempotent. Sampling, not proof.",
+            "Executor database is the simulated disk via a hook constructor.",
+            "DESIGN.md §5 C15", "stepsim"),
+    "C20": ("exploration",
+            "deterministic simulation: real based sequencer over simulated disk and DA; harness plays the block manager with seeded size limits, DA growth, retrieval errors and restarts; DA-order prefix oracle and bounded liveness",
+            "Seeded DA contents (0-6 tx blobs per height, sizes 1-200 B), heights appearing over time, GetNextBatch with limits from 4 B to default, scripted retrieval failures, restarts with/without the caller's cursor, drift 1-4. Released transactions must form a gap-free, repeat-free prefix of the DA order, no batch may exceed its limit, and with a healthy DA everything must be released within a call budget. Sampling, not proof.",
+            "The harness is the only client (LastBatchData = previous non-empty answer).",
+            "DESIGN.md §5 C20", "stepsim"),
     "C10": ("exploration",
             "deterministic simulation: seeded submit/next/restart/crash histories on the real single sequencer over a simulated journalled disk vs a FIFO model; porcupine linearizability check of concurrent histories",
             "Seeded histories (identical contents, empty, foreign chain id, beyond the bound, restart = new sequencer on the durable image, crash cutting the durable write inside an operation) are checked operation by operation against a FIFO model with candidate sets for undetermined operations, "
